@@ -43,7 +43,8 @@ theorem hNext_step (f : Nat) (t : GTok) (ts : List GTok) :
       | .lbrace => hObj f ts []
       | .lbrack => hArr f ts []
       | .rbrace | .rbrack => .done ts
-      | .val a => .ok (.atom a) ts) := by
+      | .val a => .ok (.atom a) ts
+      | .bad => .err) := by
   cases t <;> simp [hNext]
 
 theorem hObj_step (f : Nat) (ts : List GTok) (acc : List (Str × J)) :
@@ -260,6 +261,7 @@ theorem sound_next (f : Nat) (ih : Sound f) (S : List Ctx) (ts : List GTok) (hv 
       obtain ⟨h1, h2⟩ := h
       subst h1 h2
       exact ⟨.atom a, S1, by simp [gtoks], by simp [sortJ], by simp [gtoks, decRun, hs], decStep_val hs⟩
+    | bad => simp
     | rbrack =>
       refine ⟨by simp, by simp, ?_⟩
       intro rest h
@@ -485,5 +487,113 @@ theorem unmarshal_total (ts : List GTok) (eof : Bool) (hv : decValid ts = true) 
     | nilval => exact absurd hn n1
     | done rest => simp
     | ok v rest => simp only; split <;> simp
+
+/-! ## raw tokens: tokenToValue and the number beyond float64 -/
+
+theorem tokenToValue_none (l : Lit) : tokenToValue l = none ↔ l = .over := by
+  cases l <;> simp [tokenToValue]
+
+theorem tokenToValue_litOf (a : Atom) : tokenToValue (litOf a) = some a := by
+  cases a <;> rfl
+
+theorem cook_bad (t : RTok) : cook t = .bad ↔ t = .lit .over := by
+  cases t with
+  | lit l => cases l <;> simp [cook, tokenToValue]
+  | _ => simp [cook]
+
+theorem cook_injective (a b : RTok) (h : cook a = cook b) : a = b := by
+  cases a with
+  | lit l =>
+    cases b with
+    | lit l' => cases l <;> cases l' <;> simp_all [cook, tokenToValue]
+    | _ => cases l <;> simp [cook, tokenToValue] at h
+  | _ =>
+    cases b with
+    | lit l' => cases l' <;> simp [cook, tokenToValue] at h
+    | _ => simp_all [cook]
+
+theorem map_cook_injective : ∀ a b : List RTok, a.map cook = b.map cook → a = b
+  | [], [], _ => rfl
+  | [], _ :: _, h => by simp at h
+  | _ :: _, [], h => by simp at h
+  | x :: a, y :: b, h => by
+    simp only [List.map_cons, List.cons.injEq] at h
+    rw [cook_injective x y h.1, map_cook_injective a b h.2]
+
+mutual
+theorem cook_rtoks : ∀ v : J, (rtoks v).map cook = gtoks v
+  | .atom a => by simp [rtoks, gtoks, cook, tokenToValue_litOf]
+  | .arr xs => by simp [rtoks, gtoks, cook, cook_rtoksL xs]
+  | .obj kvs => by simp [rtoks, gtoks, cook, cook_rtoksK kvs]
+theorem cook_rtoksL : ∀ xs : JL, (rtoksL xs).map cook = gtoksL xs
+  | .nil => rfl
+  | .cons x xs => by simp [rtoksL, gtoksL, cook_rtoks x, cook_rtoksL xs]
+theorem cook_rtoksK : ∀ kvs : KL, (rtoksK kvs).map cook = gtoksK kvs
+  | .nil => rfl
+  | .cons k v r => by simp [rtoksK, gtoksK, cook, tokenToValue, cook_rtoks v, cook_rtoksK r]
+end
+
+mutual
+theorem bad_not_mem_gtoks : ∀ v : J, GTok.bad ∉ gtoks v
+  | .atom a => by simp [gtoks]
+  | .arr xs => by simp [gtoks, bad_not_mem_gtoksL xs]
+  | .obj kvs => by simp [gtoks, bad_not_mem_gtoksK kvs]
+theorem bad_not_mem_gtoksL : ∀ xs : JL, GTok.bad ∉ gtoksL xs
+  | .nil => by simp [gtoksL]
+  | .cons x xs => by simp [gtoksL, bad_not_mem_gtoks x, bad_not_mem_gtoksL xs]
+theorem bad_not_mem_gtoksK : ∀ kvs : KL, GTok.bad ∉ gtoksK kvs
+  | .nil => by simp [gtoksK]
+  | .cons k v r => by simp [gtoksK, bad_not_mem_gtoks v, bad_not_mem_gtoksK r]
+end
+
+theorem over_not_mem_rtoks (v : J) : RTok.lit .over ∉ rtoks v := by
+  intro h
+  have : cook (.lit .over) ∈ (rtoks v).map cook := List.mem_map_of_mem h
+  rw [cook_rtoks] at this
+  exact bad_not_mem_gtoks v this
+
+/-- a token sequence (one the decoder can emit) on which tokenToValue fails somewhere is an error -/
+theorem unmarshal_bad (ts : List GTok) (eof : Bool) (hv : decValid ts = true) (hb : GTok.bad ∈ ts) :
+    unmarshal ts eof = .err := by
+  obtain ⟨h1, h2⟩ := unmarshal_total ts eof hv
+  cases hu : unmarshal ts eof with
+  | err => rfl
+  | nilval => exact absurd hu h2
+  | ok t =>
+    obtain ⟨_, x, rfl, _⟩ := (h1 t).mp hu
+    exact absurd hb (bad_not_mem_gtoks x)
+
+/-- CanonicalJSON on raw decoder tokens: accepted exactly when they are the tokens of one
+    complete value followed by the end of input (and no surviving string has U+FFFD) -/
+theorem canonRaw_total (ts : List RTok) (eof : Bool) (hv : decValid (ts.map cook) = true) :
+    (∀ cs, canonRaw ts eof = .ok cs ↔ (eof = true ∧ ∃ x, ts = rtoks x ∧ canonChars x = some cs)) ∧
+    canonRaw ts eof ≠ .nilval := by
+  obtain ⟨h1, h2⟩ := unmarshal_total (ts.map cook) eof hv
+  unfold canonRaw canonTokens
+  constructor
+  · intro cs
+    constructor
+    · intro h
+      cases hu : unmarshal (ts.map cook) eof with
+      | err => simp [hu] at h
+      | nilval => simp [hu] at h
+      | ok t =>
+        obtain ⟨he, x, hx, ht⟩ := (h1 t).mp hu
+        refine ⟨he, x, map_cook_injective _ _ (by rw [hx, cook_rtoks]), ?_⟩
+        simp only [hu] at h
+        unfold canonChars
+        rw [← ht]
+        cases hm : marshalJ t with
+        | none => simp [hm] at h
+        | some c => simp only [hm, Outcome.ok.injEq] at h; rw [h]
+    · rintro ⟨he, x, rfl, hc⟩
+      subst he
+      rw [cook_rtoks, unmarshal_gtoks]
+      unfold canonChars at hc
+      simp [hc]
+  · cases hu : unmarshal (ts.map cook) eof with
+    | err => simp
+    | nilval => exact absurd hu h2
+    | ok t => simp only; split <;> simp
 
 end GoblVerif.Proofs.C14n
